@@ -200,6 +200,11 @@ struct UnknownLabelError : public Error {
       Error(location, (boost::format("unknown label %s") % label).str()) {}
 };
 
+struct UnalignedLabelError : public Error {
+  UnalignedLabelError(Location location, std::string label) :
+      Error(location, (boost::format("label %s is not word aligned") % label).str()) {}
+};
+
 //===---------------------------------------------------------------------===//
 // Functions for determining instruction encoding sizes.
 //===---------------------------------------------------------------------===//
@@ -781,7 +786,10 @@ class CodeGen {
             int endOffset = directive->getByteOffset() + directive->getSize();
             changed |= instrLabel->setLabelValue(labelValue - endOffset);
           } else {
-            assert((labelValue & 0x3) == 0 && "absolute label value is not word aligned");
+            // An absolute reference is a word address.
+            if (labelValue & 0x3) {
+              throw UnalignedLabelError(directive->getLocation(), instrLabel->getLabel());
+            }
             changed |= instrLabel->setLabelValue(labelValue >> 2);
           }
         }
